@@ -376,6 +376,47 @@ def f5_scenario(variant: int = 0):
     return found, stats, summary
 
 
+def orphan_named_input_scenario(variant: int = 0):
+    """An output is dropped from its step while a later step of the same plan names it as an input
+    (the build is incomplete: the consumer stays pending, the cleanup is rightly skipped); then the
+    consumer is dropped too and the build succeeds: the former output is an orphan and must be removed."""
+    from simdirector import A, FifoSchedule, Project, SimDirector
+
+    x = ["out/x.txt", "out/deep/x.txt", "x.txt"][variant % 3]
+    keep = A.step("keep", inp=["src/a.txt"], out=["out/keep.txt"])
+    v1 = [A.static("src/a.txt"), A.step("P", inp=["src/a.txt"], out=[x, "out/y.txt"]), keep]
+    v2 = [A.static("src/a.txt"), A.step("P", inp=["src/a.txt"], out=["out/y.txt"]),
+          A.step("C", inp=[x], out=["out/c.txt"]), keep]
+    v3 = [A.static("src/a.txt"), A.step("P", inp=["src/a.txt"], out=["out/y.txt"]), keep]
+    project = Project(scripts={"./plan.py": v1}, files={"src/a.txt": "A1\n"})
+    found: list[Finding] = []
+    stats: dict[str, int] = {}
+
+    def count(key, n=1):
+        stats[key] = stats.get(key, 0) + n
+
+    model = ck.CModel(static={"src/a.txt": "A1\n"},
+                      steps=[ck.CStep(name="P", inp=["src/a.txt"], out=["out/y.txt"]),
+                             ck.CStep(name="keep", inp=["src/a.txt"], out=["out/keep.txt"])])
+    truth = ck.Truth()
+    truth.sources = {"src/a.txt", "plan.py"}
+    truth.ever_output = {x: "out", "out/y.txt": "out", "out/c.txt": "out", "out/keep.txt": "out"}
+    summary = []
+    with SimDirector(project, seed=1) as sim:
+        for i, plan in enumerate([v1, v2, v3]):
+            sim.set_script("./plan.py", plan)
+            res = sim.build(njob=1, schedule=FifoSchedule())
+            truth.note_build(res.runs)
+            summary.append([i + 1, res.status, str(res.returncode), res.commands, res.tags("REMOVE")])
+            if res.status != "done" or (i != 1 and res.returncode.value != 0):
+                return found, stats, summary
+        db = ck.read_db_of(sim)
+        case = {"scenario": "orphan-named-input", "variant": variant, "builds": summary,
+                "reproduce": "harness/props/c07.py: orphan_named_input_scenario()"}
+        check_after_build(found, count, case, model, truth, sim, db, ck.snapshot(sim.root))
+    return found, stats, summary
+
+
 def rerole_scenario():
     """A volatile output that is re-declared as a regular output of an optional step which is no
     longer needed: v1 `prod` (optional, out p.txt, vol p.log) is needed by `use`; v2 re-declares
@@ -573,6 +614,12 @@ async def search(ctx):
         for f in found:
             ctx.finding(f)
         ctx.stats.count("scenario-f5")
+    for variant in range(ctx.budget(2, 3)):
+        found, stats, summary = await asyncio.to_thread(orphan_named_input_scenario, variant)
+        for f in found:
+            ctx.finding(f)
+        ctx.stats.count("scenario-orphan-named-input")
+        ctx.stats.count("scenario-orphan-named-input:builds-completed", len(summary))
     found, stats, summary = await asyncio.to_thread(f6_scenario, ctx.seed)
     for f in found:
         ctx.finding(f)
